@@ -91,7 +91,11 @@ def span_list(m, ngroups):
 
 def run_rx(chk, names=None, per_regex=None, groups=None):
     """names: regex names of the registry (None = all of `groups`). Returns #disagreements."""
-    reg = gen_modules.registry()
+    try:
+        reg = gen_modules.registry()
+    except Exception as e:  # noqa
+        chk.obligations.append(common.Obligation("translator: regex registry", "translator", False, repr(e)))
+        return 0
     if names is None and groups is not None:
         names = list(gen_modules.registry(groups))
     order = list(reg)
@@ -103,8 +107,13 @@ def run_rx(chk, names=None, per_regex=None, groups=None):
         pat, flags = reg[name]
         idx = order.index(name)
         cre = re.compile(pat, flags)
-        ast, _ = rx2coq.parse(pat, flags)
-        sxr = rx2coq.to_sx(ast)
+        try:
+            ast, _ = rx2coq.parse(pat, flags)
+            sxr = rx2coq.to_sx(ast)
+        except Exception as e:  # noqa: fail closed, but keep the other suites and the oracles running
+            chk.obligations.append(common.Obligation(
+                f"translator: regex {name} {pat!r}", "translator", False, f"{type(e).__name__}: {e}"))
+            continue
         ng = cre.groups
         for s in strings_for(ast, rng, per_regex):
             sl = common.s2l(s)
@@ -127,6 +136,8 @@ def run_rx(chk, names=None, per_regex=None, groups=None):
                 cases.append((name, "search-endpos", s, e)); impl.append([span_list(ms, ng)] if ms else [])
                 reqs.append((3, [idx, ng, sl, 0, e]))
             chk.count(("rx", name, s))
+    if not reqs:
+        return 0
     outs = model.call(reqs)
     chk.sample({"suite": "RX", "case": cases[len(cases) // 2], "re": impl[len(cases) // 2]})
     label = ",".join(groups) if groups else (f"{len(names)} regexes" if names else "all")
